@@ -126,6 +126,9 @@ func schedCase(col *Collector, focus string, p *schedPlan, tag string) {
 	if c.viaConfig {
 		cs.Tags = append(cs.Tags, "built-by-config-loader")
 	}
+	if c.names != nil {
+		cs.Tags = append(cs.Tags, "odd-stage-names")
+	}
 	if err != nil {
 		cs.Replay = c.describe()
 		cs.Fail, cs.Sig = "graph could not be built: "+err.Error(), "sched-build"
@@ -282,6 +285,12 @@ func runSched(col *Collector, focus, tier string, seed int64) {
 		c := &schedCfg{n: n, deps: deps, order: rng.Perm(n), shared: n >= 2 && rng.Intn(5) == 0}
 		// a share of the graphs is built by the configuration loader from YAML (buildPipeline, pipeline links)
 		c.viaConfig = !c.shared && rng.Intn(4) == 0
+		// a share of the small graphs gets stage names that collide when glued with a separator
+		if n <= 4 && rng.Intn(5) == 0 {
+			pool := oddNamePools[rng.Intn(len(oddNamePools))]
+			c.names = append([]string(nil), pool[:n]...)
+			rng.Shuffle(n, func(a, b int) { c.names[a], c.names[b] = c.names[b], c.names[a] })
+		}
 		applyKinds(c, kinds)
 		return c
 	}
@@ -303,6 +312,20 @@ func runSched(col *Collector, focus, tier string, seed int64) {
 				if n >= 2 {
 					add(mk(n, deps, kinds), "exh<=3", 0.7, -1)
 				}
+			}
+		}
+	}
+	// chains whose stage names collide when an edge is written "from<sep>to": x<sep>y -> x -> y<sep>x, in both directions
+	for _, pool := range oddNamePools[:9] {
+		for dir := 0; dir < 2; dir++ {
+			for _, via := range []bool{false, true} {
+				deps := [][]int{{1}, {}, {0}} // 0 depends on 1, 2 depends on 0
+				if dir == 1 {
+					deps = [][]int{{2}, {0}, {}} // 0 depends on 2, 1 depends on 0
+				}
+				c := &schedCfg{n: 3, deps: deps, order: rng.Perm(3), names: []string{pool[0], pool[2], pool[3]}, viaConfig: via}
+				applyKinds(c, []byte{'s', 's', 's'})
+				add(c, "name-collision-chain", 0, -1)
 			}
 		}
 	}
